@@ -7,3 +7,6 @@ for P in "$@"; do
   /verif/bin/check $P 2>&1 | grep -E "VIOLATION|PASS|FAIL|BROKEN" | cut -c1-260 | tail -6
 done
 git -C /repo checkout -- .
+# leave no mutated artefacts behind: regenerate Gen and rebuild the harness against the restored tree
+python3 /verif/tools/extract.py >/dev/null 2>&1
+(cd /verif/harness && cargo build --release --offline -q 2>/dev/null)
